@@ -221,6 +221,14 @@ def ref_domain(t, w, ctx):
         return (t[1] == "1" and w is None) or isinstance(w, ctx.classes[5])
     if h == "Callable":
         return (t[1] == "1" and w is None) or callable(w)
+    if h in ("TraitK", "EitherK"):
+        # a value is legal iff it is one of the LISTED constants or a member accepts it; the definition's
+        # default is a legal value only for constants alone (Trait(default, c1, c2))
+        consts, members = (t[2], t[3:]) if h == "TraitK" else (t[1], t[2:])
+        vals = [V.build_value(c, ctx) for c in consts]
+        if h == "TraitK" and not members:
+            vals.append(V.build_value(t[1], ctx))
+        return any(safe_eq(c, w) for c in vals) or any(ref_domain(a, w, ctx) for a in members)
     if h == "Either":
         return any(ref_domain(a, w, ctx) for a in t[2:]) or (t[1] == "1" and w is None)
     if h in ("Union", "CompoundH"):
@@ -337,6 +345,9 @@ def conv_ok(t, v, w, ctx):
             if a and a[0] is not None and type(a[0]) is type(w) and getattr(w, "adaptee", None) is v:
                 return True
         return mode == 2 and w is None
+    if h in ("TraitK", "EitherK"):
+        members = t[3:] if h == "TraitK" else t[2:]
+        return w is v or any(conv_ok(a, v, w, ctx) and ref_domain(a, w, ctx) for a in members)
     if h == "Either":
         return any(conv_ok(a, v, w, ctx) and ref_domain(a, w, ctx) for a in t[2:]) or (t[1] == "1" and v is None and w is None)
     if h in ("Union", "CompoundH"):
@@ -491,7 +502,7 @@ def build_class(decls, ctx):
     ns = {"__repr__": lambda self: "<A>"}
     for name, term in decls:
         o = V.build_trait(term, ctx)
-        if isinstance(o, T.TraitType):
+        if isinstance(o, (T.TraitType, T.CTrait)):
             ns[name] = o
         elif isinstance(term, list) and term[0] == "MapH":
             # Trait(default, TraitMap(...)): a mapped trait needs a default that is a key
